@@ -681,6 +681,10 @@ pub trait Vec1View<T>: TIter<T> {
         F: FnMut(Option<(T, T2)>, (T, T2)) -> OT,
     {
         let len = self.len();
+        assert!(
+            other.len() >= len,
+            "the second series must not be shorter than the first"
+        );
         let window = window.min(len);
         if window == 0 {
             return;
@@ -913,6 +917,10 @@ pub trait Vec1View<T>: TIter<T> {
         F: FnMut(Option<usize>, usize, (T, T2)) -> OT,
     {
         let len = self.len();
+        assert!(
+            other.len() >= len,
+            "the second series must not be shorter than the first"
+        );
         let window = window.min(len);
         if window == 0 {
             return;
